@@ -1452,7 +1452,13 @@ def _put_one_Constant_value(
 ) -> fst.FST:
     """Set a `Constant` value, mostly normal unless its a child of a `JoinedStr` or `TemplateStr`."""
 
-    if not ((parent := self.parent) and parent.a.__class__ in (JoinedStr, TemplateStr)):
+    if not ((parent := self.parent) and (parent_cls := parent.a.__class__) in (JoinedStr, TemplateStr)):
+        if parent and parent_cls is MatchValue:  # None, True, False are MatchSingleton in a pattern and `...` is not a pattern at all
+            value = code_as_constant(code, options, self.root._parse_params)
+
+            if value is None or value is True or value is False or value is ...:
+                raise NodeError(f'invalid value for MatchValue.value Constant, got {value!r}')
+
         return _put_one_constant(self, code, idx, field, child, static, options)
 
     raise NotImplementedError('put Constant.value which is in JoinedStr/TemplateStr.values')
